@@ -265,7 +265,10 @@ def amqp_stages(tier):
                extra_emits=[] if quick else [('AmqpRpcMC', 'AmqpRpc_thorough_emit.cfg', dict(simulate='num=4000', depth=16, seed=None))],
                driver='amqp', trace=('AmqpRpcTrace', 'AmqpRpcTrace.cfg'),
                nontrivial=lambda tr: sum(1 for e in tr['ev'] if e['ev'] == 'Deliver') >= 1)
-    return [st, Stage('amqp_liveness', mc=('AmqpRpcMC', 'AmqpRpc_live.cfg'))]
+    # the synchronous kombu pair: one call at a time, the client consumes replies only while it waits
+    seq = Stage('kombu', mc=('AmqpRpcMC', 'AmqpRpc_seq.cfg'), emit=('AmqpRpcMC', 'AmqpRpc_seq_emit.cfg'), driver='kombu_rpc',
+                trace=('AmqpRpcTrace', 'AmqpRpcTrace.cfg'), nontrivial=lambda tr: sum(1 for e in tr['ev'] if e['ev'] == 'Deliver') >= 1)
+    return [st, seq, Stage('amqp_liveness', mc=('AmqpRpcMC', 'AmqpRpc_live.cfg'))]
 
 
 def c07(tier, seed):
